@@ -198,7 +198,12 @@ class ChallengeField(Field):
         """
         Set default value by creating a :class:`DigestValue` if the default value is a string.
         """
-        if self.default is None:
+        if self.default is None or (
+            isinstance(self.env, str) and self.env and os.environ.get(self.env)
+        ):
+            # no default, or the environment variable is set: the base implementation hashes the
+            # variable's value (load_tree() skips this field whenever the variable is set, so the
+            # declared default must not shadow it)
             super().__setdefault__(cfg)
             return
 
